@@ -7,10 +7,11 @@
    real-process fault runs of harness/props/c14.py. *)
 From Coq Require Import List Arith Bool PeanoNat Lia.
 Import ListNotations.
-From BQ Require Import rt.Crash rt.CrashThm.
+From BQ Require Import rt.Crash rt.CrashThm rt.CrashEx.
 
 (* From any reachable state (arbitrary ordinary traffic in flight, arbitrary earlier good
-   crashes), after the crash of a worker or of a manager whose employees are workers, and
+   crashes), after the crash (SIGKILL, or an exception in the worker's runtime code) of a worker or of a
+   manager whose employees are workers, and
    for every continuation [es] (any schedule; it may contain further such crashes, further
    client calls and at most [budget] further spontaneous messages):
    - the number of receive (Deliver/Eof) events in [es] is at most the explicit variant of
@@ -20,8 +21,9 @@ From BQ Require Import rt.Crash rt.CrashThm.
      runtime process is down, every client connection is closed by the server and no client
      is still inside a call;
    - otherwise some receive is enabled (the system is never stuck half way). *)
-Theorem C14_crash_propagates : forall T attached out, wf_topo T = true -> forall s n s1,
-  reach T attached out s -> good_crash T n = true -> step T attached out s (ECrash n) = Some s1 ->
+Theorem C14_crash_propagates : forall T attached out, wf_topo T = true -> forall s n e0 s1,
+  reach T attached out s -> (e0 = ECrash n /\ good_crash T n = true \/ e0 = EFail n) ->
+  step T attached out s e0 = Some s1 ->
   forall es s2, forallb (good_event T) es = true -> run T attached out s1 es = Some s2 ->
     count_recv es + variant T s2 <= variant T s1 /\
     (quiescent T attached s2 = true -> all_down T s2 = true) /\
@@ -42,16 +44,20 @@ Definition C14_crash_propagates_full : Prop := forall T attached out, wf_topo T 
   reach T attached out s -> step T attached out s (ECrash n) = Some s1 ->
   run T attached out s1 es = Some s2 -> quiescent T attached s2 = true -> all_down T s2 = true.
 
-Definition nested_T : list (kind * nat) :=
-  [(KServer, 0); (KManager, 0); (KManager, 1); (KWorker, 2); (KClient, 0)].
-Definition nested_pre : list event :=
-  [ECall 4 (RSubmit 7) 0; ERecv true 4 0; EEmit false 1 8; ERecv false 1 0; EEmit false 2 8;
-   ECall 4 (RResult 7) 0; ERecv true 4 0].
-Definition nested_post : list event :=
-  [ERecv true 1 0; ERecv false 2 0; ERecv false 2 0; ERecv false 4 1].
-
 Theorem C14_crash_propagates_refuted_nested : ~ C14_crash_propagates_full.
 Proof. exact nested_refutes. Qed.
+
+(* the witness run itself (rt/CrashEx.v: nested_T, nested_pre, nested_post), replayed on real processes
+   by the harness: after the crash of manager 1 the system becomes quiescent with manager 2 and its
+   worker still up, although the client has been served its exception *)
+Theorem C14_nested_witness : exists s s1 s2,
+  run nested_T false S (init nested_T 10) nested_pre = Some s /\
+  step nested_T false S s (ECrash 1) = Some s1 /\
+  run nested_T false S s1 nested_post = Some s2 /\
+  quiescent nested_T false s2 = true /\ all_down nested_T s2 = false /\
+  alive s2 2 = true /\ alive s2 3 = true /\ cend s2 2 = false /\
+  outcomes s2 4 = [ORaised; OSubmitted 7].
+Proof. exact nested_run. Qed.
 
 (* A client call that is blocked when the server has gone down cannot wait for ever: its
    read is enabled; when it returns exactly one outcome is recorded; once everything that
@@ -77,24 +83,16 @@ Theorem C14_no_partial_result : forall T attached out s, reach T attached out s 
 Proof. exact no_partial_result. Qed.
 
 (* ---- non-vacuity ------------------------------------------------------------------------------ *)
-(* server 0; manager 1 with workers 2,3; manager 4 with worker 5; clients 6,7 *)
-Definition ex_T : list (kind * nat) :=
-  [(KServer, 0); (KManager, 0); (KWorker, 1); (KWorker, 1); (KManager, 0); (KWorker, 4); (KClient, 0); (KClient, 0)].
-Definition ex_pre : list event :=
-  [ECall 6 (RSubmit 7) 0; ERecv true 6 0; EEmit false 1 8; ECall 7 (RSubmit 9) 0; ERecv true 7 0;
-   ECall 6 (RResult 7) 0; ERecv true 6 0; ERecv false 1 0; EEmit false 2 8; EEmit true 3 12].
-Definition ex_post : list event :=
-  [ERecv true 2 0; ERecv true 1 0; ERecv true 1 0; ERecv false 3 0; ERecv false 4 0; ERecv false 5 0;
-   ERecv false 6 1; ECall 7 (RResult 9) 1].
-
+(* rt/CrashEx.v: ex_T = server 0; manager 1 with workers 2,3; manager 4 with worker 5; clients 6,7.
+   Client 6 is blocked in result(), client 7 has submitted; worker 2 is killed. *)
 Example C14_crash_nonvacuous :
   wf_topo ex_T = true /\ good_crash ex_T 2 = true /\
   exists s s1 s2, run ex_T false S (init ex_T 10) ex_pre = Some s /\ reach ex_T false S s /\
     step ex_T false S s (ECrash 2) = Some s1 /\ run ex_T false S s1 ex_post = Some s2 /\
     forallb (good_event ex_T) ex_post = true /\
     quiescent ex_T false s2 = true /\ all_down ex_T s2 = true /\
-    blocked s 6 = Some (RResult 7) /\ outcomes s2 6 = [ORaised; OSubmitted 7] /\
-    outcomes s2 7 = [ORaised; OSubmitted 9] /\ count_recv ex_post = 7 /\ variant ex_T s1 = 177.
+    blocked s1 6 = Some (RResult 7) /\ outcomes s2 6 = [ORaised; OSubmitted 7] /\
+    outcomes s2 7 = [ORaised; OSubmitted 9] /\ count_recv ex_post = 6 /\ variant ex_T s1 = 143.
 Proof. exact ex_crash. Qed.
 
 (* a fault-free run delivers the complete result (the hypothesis of C14_no_partial_result is met) *)
